@@ -183,3 +183,56 @@ Definition serve (answer : str -> auth_answer) (r : requirement) (params_ok : bo
 Definition alt_sat (answer : str -> auth_answer) (a : alt) : bool :=
   forallb (fun sch => match answer sch with Principal _ => true | _ => false end) a.
 Definition sat (answer : str -> auth_answer) (r : requirement) : bool := existsb (alt_sat answer) r.
+
+(* ================= C03: binding an array parameter (one level; server/parameter.gotmpl sliceparambinder) ================= *)
+Record aparam := { ap_required : bool; ap_multi : bool; ap_sep : N; ap_elem : ptype;
+                   ap_minitems : option Z; ap_maxitems : option Z; ap_unique : bool }.
+Inductive aoutcome := AReject | AAbsent | ABound (vs : list value).
+
+(* every item is converted, then validated, in order; the first failure rejects the request *)
+Fixpoint conv_items (t : ptype) (l : list str) : option (list value) :=
+  match l with
+  | [] => Some []
+  | x :: r =>
+      match convert t x with
+      | Some v => if valid_value t v then option_map (cons v) (conv_items t r) else None
+      | None => None
+      end
+  end.
+
+Definition value_eq (a b : value) : bool :=
+  match a, b with
+  | VStr x, VStr y => str_eqb x y
+  | VInt x, VInt y => Z.eqb x y
+  | VBool x, VBool y => Bool.eqb x y
+  | _, _ => false
+  end.
+Fixpoint distinct_values (l : list value) : bool :=
+  match l with [] => true | x :: r => negb (existsb (value_eq x) r) && distinct_values r end.
+
+(* collectionFormat multi: the occurrences of the key as they are; otherwise the last occurrence, split *)
+Definition items_of (p : aparam) (rd : list str) : list str :=
+  if ap_multi p then rd else split_by (ap_sep p) (last_raw rd).
+
+Definition count_ok (p : aparam) (vs : list value) : bool :=
+  match ap_minitems p with Some a => Z.leb a (Z.of_nat (length vs)) | None => true end &&
+  match ap_maxitems p with Some b => Z.leb (Z.of_nat (length vs)) b | None => true end.
+
+Definition bind_array (p : aparam) (rd : list str) (has_key : bool) : aoutcome :=
+  if ap_required p && negb has_key then AReject
+  else match items_of p rd with
+       | [] => if ap_required p then AReject else AAbsent
+       | items =>
+           match conv_items (ap_elem p) items with
+           | None => AReject
+           | Some vs => if count_ok p vs && (if ap_unique p then distinct_values vs else true) then ABound vs else AReject
+           end
+       end.
+
+(* the array semantics, stated without the ladder *)
+Definition areq_ok (p : aparam) (rd : list str) (has_key : bool) : Prop :=
+  (ap_required p = true -> has_key = true) /\
+  (items_of p rd = [] -> ap_required p = false) /\
+  (items_of p rd <> [] ->
+     exists vs, Forall2 (fun raw v => convert (ap_elem p) raw = Some v /\ valid_value (ap_elem p) v = true) (items_of p rd) vs /\
+                count_ok p vs = true /\ (ap_unique p = true -> distinct_values vs = true)).
